@@ -26,6 +26,7 @@ import (
 	"io"
 	"net"
 	"net/http"
+	"os"
 	"strconv"
 	"strings"
 	"time"
@@ -152,9 +153,21 @@ func (p *proxyConn) handleMITM(req *http.Request) error {
 	// Successful CONNECT response does not invoke trace.
 	p.traceWroteResponse(res, nil)
 
+	// Wait for the client's first byte like for the next request: readRequest has cleared the deadline.
+	var idleDeadline time.Time // or zero if none
+	if d := p.idleTimeout(); d > 0 {
+		idleDeadline = time.Now().Add(d)
+	}
+	if deadlineErr := p.conn.SetReadDeadline(idleDeadline); deadlineErr != nil {
+		log.Error(ctx, "can't set idle deadline", "error", deadlineErr)
+	}
+
 	b, err := p.brw.Peek(1)
+	if deadlineErr := p.conn.SetReadDeadline(time.Time{}); deadlineErr != nil {
+		log.Error(ctx, "can't clear idle deadline", "error", deadlineErr)
+	}
 	if err != nil {
-		if isClosedConnError(err) {
+		if isClosedConnError(err) || errors.Is(err, os.ErrDeadlineExceeded) {
 			log.Debug(ctx, "mitm: connection closed prematurely", "error", err)
 		} else {
 			log.Error(ctx, "mitm: failed to peek connection", "host", req.Host, "error", err)
